@@ -100,6 +100,10 @@ def fillers(hdr_kind: str) -> list[tuple[str, list[list[Any]]]]:
 # ------------------------------------------------------------------------------------------ fault plans
 
 
+# argument values the client cannot send for `a: int`
+BAD_ARGS: dict[str, Any] = {"str": "x", "big": 2**70, "none": None, "list": [1], "negbig": -(2**70)}
+
+
 def fault_plans() -> list[dict[str, Any]]:
     """Every fault plan: {"id", "f": server descriptor of method f | None, "cf": client view of f, "ops", "pol", "badver"}."""
     plans: list[dict[str, Any]] = []
@@ -125,6 +129,12 @@ def fault_plans() -> list[dict[str, Any]]:
         xc = {"name": "f", "kind": "unary", "xret": x}
         add(f"unary/decode:{x}", xf, xc, [["call", "f", 1]])
         add(f"unary/decode:{x}+onLogFrom@1", xf, xc, [["call", "f", 1]], pol=["from", 1])
+    # the CLIENT rejects the call before / while writing the request: nothing may reach the wire
+    for vname, val in BAD_ARGS.items():
+        add(f"unary/clientReject:{vname}", uf, cu, [["call", "f", val]])
+    sf = {"name": "f", "kind": "unary", "xret": "plain_int", "ptype": "str", "logs": [L("f0")]}
+    add("unary/clientReject:surrogate", sf, {"name": "f", "kind": "unary", "xret": "plain_int", "ptype": "str"}, [["call", "f", "\ud800"]])
+    add("unary/clientReject:int_for_str", sf, {"name": "f", "kind": "unary", "xret": "plain_int", "ptype": "str"}, [["call", "f", 5]])
     add("unary/raises+onLogFrom@0", {**uf, "out": E}, cu, [["call", "f", 1]], pol=["from", 0])
 
     # ---- streams
@@ -173,6 +183,19 @@ def fault_plans() -> list[dict[str, Any]]:
                 add(f"{tag}/clientAbandon@{k}", ok, cf, op() + [step] * k + [["exit"]])
             add(f"{tag}/close-then-use", ok, cf, op() + [step, ["close"], step, ["cancel"], ["exit"]])
             add(f"{tag}/cancel-then-use", ok, cf, op() + [step, ["cancel"], step, ["close"], ["exit"]])
+            for vname, val in BAD_ARGS.items():
+                for st in ("exit", "1+exit"):
+                    add(f"{tag}/clientReject:{vname}/{st}", ok, cf, [["open", "f", val]] + styles[st])
+            # close() / cancel() failing because on_log raises, then closed again (as `with` / `finally` do)
+            again = {"close+exit": [["close"], ["exit"]], "close+cancel": [["close"], ["cancel"], ["exit"]],
+                     "cancel+close": [["cancel"], ["close"], ["exit"]], "1+close+exit": [step, ["close"], ["exit"]],
+                     "close+close+exit": [["close"], ["close"], ["exit"]]}
+            for k in (0, 1, 2):
+                for mode in ("once", "from"):
+                    for an, aops in again.items():
+                        add(f"{tag}/onLog{mode.capitalize()}@{k}/{an}", ok, cf, op() + aops, pol=[mode, k])
+            for an in ("close+exit", "close+cancel"):
+                add(f"{tag}/initRaises+onLogFrom@0/{an}", {**ok, "init": E}, cf, op() + again[an], pol=["from", 0])
             # on_log raising: logs of a full run = init(2) + 3 x (pre 1 + post 1)
             for k in (0, 1, 2, 3, 4, 7):
                 for mode in ("once", "from"):
@@ -191,7 +214,7 @@ def fault_plans() -> list[dict[str, Any]]:
 # ------------------------------------------------------------------------------------------ history -> scripts
 
 
-def build_case(plans: list[dict[str, Any]], layout: list[Any], hdr_kind: str, versioned: bool) -> dict[str, Any]:
+def build_case(plans: list[dict[str, Any]], layout: list[Any], hdr_kind: str, versioned: bool, typed: int = 0) -> dict[str, Any]:
     """layout: list of filler names / plan indices (ints). At most one distinct faulty descriptor of `f` per history: when
     two fault plans are present the second must share `f`/`cf` with the first (the generator guarantees it)."""
     fl = dict(fillers(hdr_kind))
@@ -208,11 +231,17 @@ def build_case(plans: list[dict[str, Any]], layout: list[Any], hdr_kind: str, ve
             calls.append({"plan": "ok:" + item, "ops": fl[item], "pol": None})
     calls.append({"plan": "sentinel", "ops": [["call", "s", 3]], "pol": None})
     methods = copy.deepcopy(BASE_METHODS) + [stream_m("h", hdr_kind, True, emit_steps(3))]
-    cmethods = [{"name": m["name"], "kind": m["kind"], "header": bool(m.get("header"))} for m in methods]
+    # `typed` (bit 0: the fault method f, bit 1: the filler streams): the stream state class is a typed ProducerState /
+    # ExchangeState (introspected `is_exchange` False / True) instead of a plain StreamState (None)
+    if typed & 2:
+        for m in methods:
+            if m["kind"] != "unary":
+                m["typed"] = True
+    cmethods = [{"name": m["name"], "kind": m["kind"], "header": bool(m.get("header")), "typed": bool(m.get("typed"))} for m in methods]
     if f is not None:
-        methods.append(f)
+        methods.append({**f, "typed": True} if (typed & 1 and f["kind"] != "unary") else f)
     if cf is not None:
-        cmethods.append(cf)
+        cmethods.append({**cf, "typed": True} if (typed & 1 and cf["kind"] != "unary") else cf)
     versioned = versioned or badver
     return {"sdesc": {"methods": methods}, "cdesc": {"methods": cmethods}, "calls": calls,
             "server_version": "1.2.3" if versioned else None, "bad_version": "2.0.0" if badver else None}
@@ -252,7 +281,8 @@ def model_args(case: dict[str, Any]) -> dict[str, Any]:
         req = {"method": idx.get(name, len(ms)),
                "versionOk": not (len(first) > 3 and first[3] == "badver"),
                "paramsOk": cm[name].get("param", "a") == "a",
-               "resultDecodes": cm[name].get("xret") in (None, "enum_known")}
+               "clientRejects": "/clientReject:" in c["plan"],
+               "resultDecodes": cm[name].get("xret") in (None, "enum_known", "plain_int")}
         del server_m
         pol = ["none"] if c["pol"] is None else c["pol"]
         if first[0] == "call":
@@ -327,8 +357,10 @@ def judge(ctx: Any, case: dict[str, Any], transport: str, r: dict[str, Any], dea
            "bad_version": case["bad_version"], "transport": transport}
     faulty = [p for p in plans if not p.startswith("ok:") and p != "sentinel" and not p.endswith("/ok") and "/ok/" not in p]
     fam = fault_key(case)
-    ctx.case({"plans": plans, "transport": transport, "versioned": case["server_version"] is not None}, nontrivial=bool(faulty),
-             tags=(f"t:{transport}", f"len:{len(plans) - 1}", f"fam:{fam.split(':', 1)[1]}"))
+    ctx.case({"plans": plans, "transport": transport, "versioned": case["server_version"] is not None,
+              "typed": [m["name"] for m in case["sdesc"]["methods"] if m.get("typed")]}, nontrivial=bool(faulty),
+             tags=(f"t:{transport}", f"len:{len(plans) - 1}", f"fam:{fam.split(':', 1)[1]}",
+                   "f-state:" + ("typed" if any(m.get("typed") and m["name"] == "f" for m in case["sdesc"]["methods"]) else "plain")))
     groups = split_ops(case, r["trace"])
     sent_evs = groups[-1][0][1] if groups[-1] else []
     sent_ok = bool(sent_evs) and sent_evs[-1] == ["value", SENT] and [e for e in sent_evs if e[0] == "log"] == [["log", "INFO", "s.log", {}]]
@@ -359,7 +391,7 @@ def judge(ctx: Any, case: dict[str, Any], transport: str, r: dict[str, Any], dea
     mod_ops = [[o["res"] for o in c["outs"]] for c in m["calls"]]
     obs_ops = [[classify(op, evs) for op, evs in grp] for grp in groups]
     for c, ops in zip(case["calls"], obs_ops):
-        if "/decode:" in c["plan"]:
+        if "/decode:" in c["plan"] or "/clientReject:" in c["plan"]:
             # whatever class the client's validation / decoding raises (TypeError, KeyError, ArrowInvalid wrapped as
             # TransportError): the model's "the caller got an exception that is not the server's"
             ops[:] = ["raised" if (o.startswith("raised") or o == "transport") else o for o in ops]
@@ -459,9 +491,11 @@ def run(ctx: Any) -> None:
             chosen = [(lay[0], transports[i % 3]), (lay[1 + (i + ctx.seed) % 5], transports[(i + 1 + rng.randrange(2)) % 3])]
         else:
             chosen = [(l, t) for l in lay for t in transports]
-        for l, t in chosen:
+        for j, (l, t) in enumerate(chosen):
             layout = [i if x == "F" else rng.choice(names) for x in l]
-            jobs.append((build_case(plans, layout, rng.choice(["producer", "exchange"]), versioned=rng.random() < 0.3), t))
+            # every plan runs with a plain and with a typed state class of f; the fillers' vary at random
+            typed = ((i + j) % 2) | (2 if rng.random() < 0.5 else 0)
+            jobs.append((build_case(plans, layout, rng.choice(["producer", "exchange"]), versioned=rng.random() < 0.3, typed=typed), t))
     # two faults in one history (same descriptor of f): pairs of plans sharing f / cf, length <= 5
     by_f: dict[str, list[int]] = {}
     for i, p in enumerate(plans):
@@ -474,7 +508,8 @@ def run(ctx: Any) -> None:
         layout2: list[Any] = [rng.choice(names) for _ in range(k)]
         pa, pb = sorted(rng.sample(range(k), 2))
         layout2[pa], layout2[pb] = a, b
-        jobs.append((build_case(plans, layout2, rng.choice(["producer", "exchange"]), versioned=rng.random() < 0.3), rng.choice(transports)))
+        jobs.append((build_case(plans, layout2, rng.choice(["producer", "exchange"]), versioned=rng.random() < 0.3,
+                                typed=rng.randrange(4)), rng.choice(transports)))
     ctx.note("histories", len(jobs))
     ctx.exhaustive = bool(thorough)   # thorough: every plan x every (length <= 3, position) x every transport
     run_jobs(ctx, jobs)
